@@ -44,6 +44,10 @@ META = {
 }
 
 TOL_ULP = 4
+# /repo commit 82074b6 made BaseModel.solve_t reject periods without enough lags/leads (IndexError).  M1
+# (FsicModel/Solver.lean, owned by the C02 work package) gains that test separately; until it is merged into this
+# branch the Python-side *model* tie skips calls that address such a period (the oracle and the Fortran-side tie do not).
+M1_HAS_FEASIBILITY_TEST = False
 
 
 # ---------------------------------------------------------------------------------------------------------------
@@ -713,7 +717,11 @@ def process_program(job):
             out['cases'].append((json.dumps([prog['script'], data, call], sort_keys=True), nontrivial))
             in_span = call['call'] != 'solve_t' or -n <= call['t'] < n   # the models assume -n <= t < n for solve_t
             if model_ok and in_span and all_finite(Po) and all_finite(Fo):
-                out['model'].append((model_payload(prog, symbols, n, data, call, check), obs_str(Fo), obs_str(Po), case, prog['unsafe']))
+                periods = call_periods(call, n, lags, leads)
+                p_tie = (M1_HAS_FEASIBILITY_TEST or call['call'] == 'evaluate' or
+                         (periods is not None and all(feasible(p, n, lags, leads) for p in periods)))
+                out['model'].append((model_payload(prog, symbols, n, data, call, check), obs_str(Fo),
+                                     obs_str(Po) if p_tie else None, case, prog['unsafe']))
     except Exception as e:  # noqa: BLE001
         out['notes'].append('worker error: ' + ''.join(traceback.format_exception(type(e), e, e.__traceback__))[-1500:])
         out['error'] = True
